@@ -123,6 +123,62 @@ func concretize(h *history, a *auA) concrete {
 		c.au = au
 		c.units = []written{{track: a.Track, id: u.ID, pts: a.PTS, dts: a.DTS, ntp: a.NTP, ra: a.RA,
 			sliced: a.RA || a.NonIDR, payload: avcc, nalus: au, params: a.Params, hasPar: a.HasParams}}
+	case kH265:
+		var au [][]byte
+		if a.HasParams {
+			au = append(au, h265VPSOf(a.Params), h265SPSOf(a.Params), h265PPSOf(a.Params))
+		}
+		u := a.Units[0]
+		if a.RA {
+			au = append(au, h265NALU(h265RATypes[u.ID%3], fill(u.ID, u.Len)))
+		}
+		if a.NonIDR {
+			au = append(au, h265NALU(h265NonRATypes[u.ID%6], fill(u.ID, u.Len)))
+		}
+		if !a.RA && !a.NonIDR {
+			// no picture data; writeH265 has no "neither IDR nor non-IDR" filter, the unit becomes a sample,
+			// so it carries its id in an SEI NALU
+			au = append(au, h265NALU(h265SEI, fill(u.ID, 12)))
+		}
+		var avcc []byte
+		for _, n := range au {
+			avcc = append(avcc, byte(len(n)>>24), byte(len(n)>>16), byte(len(n)>>8), byte(len(n)))
+			avcc = append(avcc, n...)
+			c.fsize += int64(4 + len(n))
+			c.tsize += int64(len(n))
+		}
+		c.au = au
+		c.units = []written{{track: a.Track, id: u.ID, pts: a.PTS, dts: a.DTS, ntp: a.NTP, ra: a.RA,
+			sliced: true, payload: avcc, nalus: au, params: a.Params, hasPar: a.HasParams}}
+	case kVP9:
+		u := a.Units[0]
+		// non-key frames carry no parameters; their profile bits follow the id (the muxer does not look)
+		frame := append(vp9FrameHeader(a.Params, a.RA), fill(u.ID, u.Len)...)
+		if !a.RA {
+			frame = append(vp9FrameHeader(u.ID%12, false), fill(u.ID, u.Len)...)
+		}
+		c.au = [][]byte{frame}
+		c.fsize, c.tsize = int64(len(frame)), int64(len(frame))
+		c.units = []written{{track: a.Track, id: u.ID, pts: a.PTS, dts: a.DTS, ntp: a.NTP, ra: a.RA,
+			sliced: true, payload: frame, params: a.Params, hasPar: a.RA}}
+	case kAV1:
+		u := a.Units[0]
+		var tu [][]byte
+		if u.ID%3 == 0 {
+			tu = append(tu, av1OBU(av1OBUTD, u.ID%2 == 0, nil))
+		}
+		if a.RA {
+			tu = append(tu, av1SeqHdrOf(a.Params))
+		}
+		tu = append(tu, av1OBU(av1OBUFrame, u.ID%4 < 2, fill(u.ID, u.Len)))
+		var bs []byte
+		for _, o := range tu {
+			bs = append(bs, av1WithSize(o)...) // low-overhead bitstream format: every OBU with its size
+		}
+		c.au = tu
+		c.fsize, c.tsize = int64(len(bs)), int64(len(bs))
+		c.units = []written{{track: a.Track, id: u.ID, pts: a.PTS, dts: a.DTS, ntp: a.NTP, ra: a.RA,
+			sliced: true, payload: bs, nalus: tu, params: a.Params, hasPar: a.RA}}
 	case kAAC:
 		pts := a.PTS
 		for i, u := range a.Units {
@@ -155,7 +211,7 @@ func annotate(h *history) {
 		a := &h.Ops[i]
 		c := concretize(h, a)
 		t := h.Tracks[a.Track]
-		if t.Kind == kH264 {
+		if isVideoKind(t.Kind) {
 			a.Units[0].FSize, a.Units[0].TSize = c.fsize, c.tsize
 		} else {
 			for j := range a.Units {
@@ -308,6 +364,12 @@ func decodeParts(body []byte, kind int) ([]dpart, error) {
 				switch kind {
 				case kH264:
 					ds.id = videoID(s.Payload)
+				case kH265:
+					ds.id = h265SampleID(s.Payload)
+				case kVP9:
+					ds.id = vp9FrameID(s.Payload)
+				case kAV1:
+					ds.id = av1SampleID(s.Payload)
 				case kOpus:
 					if len(s.Payload) > 1 {
 						ds.id = decID(s.Payload[1:])
@@ -537,6 +599,14 @@ func mkTracks(h *history) []*gohlslib.Track {
 		switch t.Kind {
 		case kH264:
 			tr.Codec = &codecs.H264{SPS: spsOf(t.Params0), PPS: ppsOf(t.Params0)}
+		case kH265:
+			tr.Codec = &codecs.H265{VPS: h265VPSOf(t.Params0), SPS: h265SPSOf(t.Params0), PPS: h265PPSOf(t.Params0)}
+		case kVP9:
+			v := vp9ParamsOf(t.Params0)
+			tr.Codec = &codecs.VP9{Width: v.w, Height: v.h, Profile: v.profile, BitDepth: v.bitDepth,
+				ChromaSubsampling: v.subsampling, ColorRange: v.colorRange}
+		case kAV1:
+			tr.Codec = &codecs.AV1{SequenceHeader: av1SeqHdrOf(t.Params0)}
 		case kAAC:
 			tr.Codec = &codecs.MPEG4Audio{Config: mpeg4audio.Config{Type: 2, SampleRate: int(t.SRate), ChannelCount: 2}}
 		case kOpus:
@@ -668,6 +738,12 @@ func runImpl(h *history, dir string) (res *runResult) {
 		switch h.Tracks[a.Track].Kind {
 		case kH264:
 			err = m.WriteH264(tr, ntp, a.PTS, c.au)
+		case kH265:
+			err = m.WriteH265(tr, ntp, a.PTS, c.au)
+		case kVP9:
+			err = m.WriteVP9(tr, ntp, a.PTS, c.au[0])
+		case kAV1:
+			err = m.WriteAV1(tr, ntp, a.PTS, c.au)
 		case kAAC:
 			err = m.WriteMPEG4Audio(tr, ntp, a.PTS, c.au)
 		case kOpus:
@@ -1073,6 +1149,16 @@ func classifyCodec(c string) (int64, int64) {
 		// level byte distinguishes SPS variants: 28 / 29 / 2a; the PPS does not show
 		lvl := c[len(c)-2:]
 		return 1, map[string]int64{"28": 0, "29": 1, "2a": 2}[strings.ToLower(lvl)]
+	case strings.HasPrefix(c, "hvc1."), strings.HasPrefix(c, "vp09."), strings.HasPrefix(c, "av01."):
+		// the three variants g = (id / 4) mod 3 of each kind have distinct strings (level / profile /
+		// tier / bit depth): recover g by comparing with the expected literals (case-insensitive hex)
+		kind := map[string]int{"hvc1.": kH265, "vp09.": kVP9, "av01.": kAV1}[c[:5]]
+		for g := int64(0); g < 3; g++ {
+			if strings.EqualFold(c, videoCodecString(kind, 4*g)) {
+				return int64(kind), g
+			}
+		}
+		return int64(kind), -1
 	case strings.HasPrefix(c, "mp4a."):
 		return 5, 2
 	case c == "opus":
